@@ -111,7 +111,14 @@ def check_insert(ctx, prog, fn):
             problems.append('expected exactly one list insertion per bit, found %d mutating calls' % len(pushes))
         else:
             p = pushes[0]
-            acc = prog.accessor_call(strip(p.args[0]))
+            tgt_v = strip(p.args[0])
+            acc = prog.accessor_call(tgt_v)
+            for _ in range(4):
+                # `self.chunk_mut(i).buffer.push(e)`: the list of the selected place, written without a helper
+                if acc is not None or tgt_v.kind not in ('ref', 'load'):
+                    break
+                tgt_v = strip(tgt_v.args[0])
+                acc = prog.accessor_call(tgt_v)
             if acc is None or not derives(acc[2], nexts[0]):
                 problems.append('the copy is not pushed into the list selected by the current bit')
             if ents and strip(p.args[1]) is not ents[0]:
